@@ -207,8 +207,8 @@ func TestVerifC04Dedup(t *testing.T) {
 			if len(h.ups) > 0 {
 				idle = 1500 * time.Millisecond
 			}
-			// quiet for a while AND every request whose fetch succeeds has got as far as a response upload (under load the
-			// backend round trip alone can take longer than the idle period)
+			// quiet for a while AND every request whose fetch succeeds has reached the backend (under load, with a thousand workers
+			// of another history running, that alone can take longer than the idle period)
 			willSucceed := func(script []int) bool {
 				for i := 0; i < 3; i++ {
 					k := verifOK
@@ -225,15 +225,20 @@ func TestVerifC04Dedup(t *testing.T) {
 				return false
 			}
 			fp.quiesce(idle, 40*time.Second, func() bool {
-				fp.mu.Lock()
-				defer fp.mu.Unlock()
+				// (the upload to the proxy is opened before the backend is asked, so it is the backend's record that counts)
+				reached := map[string]bool{}
+				for _, v := range be.invocations() {
+					reached[v.Tok] = true
+				}
 				for id := range ids {
-					if willSucceed(h.scripts[id]) && fp.upCount[id] == 0 {
+					if willSucceed(h.scripts[id]) && !reached[id] {
 						return false
 					}
 				}
 				return true
 			})
+			// ... and the answers have been uploaded
+			time.Sleep(100 * time.Millisecond)
 			inv := map[string]int{}
 			for _, v := range be.invocations() {
 				if ids[v.Tok] {
